@@ -1,5 +1,7 @@
 import WK.Proofs.C09_WF
 import WK.Proofs.C09_Idx
+import WK.Proofs.C09_Strict
+import WK.Proofs.C09_RetFloor
 import WK.Gen.C09
 /-
   C09 — storage mutations are crash-atomic.  Class PR.
@@ -147,6 +149,23 @@ theorem c09_each_prefix_idx (ops : List Op) (k : Nat) (hf : HistFresh [] ops) :
   rw [he]
   exact idxInv_run _ [] idxInv_empty (histFresh_take ops [] j hf)
 
+/-- ROWS ⇔ INDEXES for STRICT histories, no freshness hypothesis: when every append / exact append runs in
+    strict mode with non-zero ids (record-carrying follower applies are the trusted mode and excluded), the
+    model's `validateRows` itself guarantees fresh, pairwise distinct ids and idempotency keys, so `IdxInv`
+    holds at every crash point. -/
+theorem c09_each_prefix_idx_strict (ops : List Op) (k : Nat) (hs : ∀ op ∈ ops, StrictOp op) :
+    IdxInv (applyCommits [] ((commitsOf [] ops).take k)) := by
+  obtain ⟨j, _, he⟩ := commit_prefix_is_clean_prefix [] ops k
+  rw [he]
+  exact idxInv_run_strict _ [] idxInv_empty (fun o ho => hs o (List.mem_of_mem_take ho))
+
+/-- non-vacuity: a strict history with a rejected duplicate, a truncation and a re-append -/
+example : ∀ op ∈ [Op.app 1 0 [⟨7, 1, 2, 0, 3⟩], .app 2 0 [⟨7, 0, 0, 0, 1⟩], .trunc 1 0, .app 1 0 [⟨7, 1, 2, 0, 3⟩]],
+    StrictOp op := by
+  intro op h
+  simp only [List.mem_cons, List.mem_nil_iff, or_false] at h
+  rcases h with rfl | rfl | rfl | rfl <;> simp [StrictOp]
+
 /-- …so the Bool judge's row-completeness clause holds there (tie between the lookup invariant and
     the predicate the driver evaluates on the implementation's dumps) -/
 theorem c09_each_prefix_rows_complete (ops : List Op) (k : Nat) (hf : HistFresh [] ops) :
@@ -162,6 +181,20 @@ example : HistFresh [] [.app 1 0 [⟨7, 1, 2, 0, 3⟩, ⟨8, 0, 4, 4, 0⟩], .tr
     entry, and the older row loses its index entry -/
 example : ¬ StoreInv (run [] [.app 1 2 [⟨7, 0, 0, 0, 1⟩], .app 2 2 [⟨7, 0, 0, 0, 2⟩]]) := by
   unfold StoreInv; decide
+
+/-- `_partial` — RETENTION FLOOR against rows (Physical ≤ Local ≤ RetainedMax, Local > 0, no stored row at or
+    below the physical floor) is preserved by the batch of every append-shaped mutation (append, apply-fetch,
+    exact append: new rows land above the recovered log end ≥ RetainedMaxSeq) and of a checkpoint write.
+    Missing: truncate, retention adoption and the bounded trim (the trim needs sortedness of the row
+    iteration order); those stay judged on the implementation's dumps. -/
+theorem c09_ret_floor_appends_partial (s : Store) (op : Op) (h : RetFloor s)
+    (hop : match op with | .app .. => True | .fetch .. => True | .xapp .. => True | .ckpt .. => True | _ => False) :
+    RetFloor (applyBatch s (plan s op).2) := retFloor_plan_appends s op h hop
+
+/-- non-vacuity: the empty store satisfies the floor, and an apply-fetch after a trim appends above it -/
+example : RetFloor [] := by intro ch l p m hg; simp [get, List.lookup] at hg
+example : (plan (run [] [.fetch 1 (some 2) [⟨7, 0, 0, 0, 1⟩, ⟨8, 0, 0, 0, 2⟩], .adopt 1 1, .trim 1 1 0])
+    (.app 1 0 [⟨9, 0, 0, 0, 3⟩])).1 = .ok [2] := by decide
 
 /-- ACKNOWLEDGED ⇒ DURABLE, with at most one mutation in flight: after the mutations `acked`
     returned and while `op` is executing, the crash state is the store after `acked` or the store
